@@ -11,7 +11,7 @@ ENGINES = [
 
 ENGINES.append(
     {"name": "E3-enumerate", "path": "vf/props/",
-     "serves_properties": ["C02", "C07", "C08", "C09", "C20"],
+     "serves_properties": ["C02", "C07", "C08", "C09", "C14", "C20"],
      "kind_free_text": "small-scope exhaustive enumerators (compositions, "
      "all boolean masks / NaN placements, option products) run against the "
      "real code with a reference oracle per case"})
@@ -273,5 +273,28 @@ CHECKS = {
                 "may become fixed-length (text compared); unknown extra "
                 "feature names and defective-feature markers are outside "
                 "(dclab skips them by documented design)",
+    },
+    "C14": {
+        "engine": "E3-enumerate",
+        "level": "exploration",
+        "technique": "exhaustive enumeration of basin reference graphs "
+                     "(all directed graphs on 2 and 3 files, self-loops "
+                     "included) x identifier/location/type assignments vs. "
+                     "a reference resolver, under an alarm",
+        "text": "All 16 + 512 directed graphs of file basins on 2 and 3 "
+                "files (every file opened): offered features and values "
+                "equal the reference resolver's (reachability with the "
+                "identifier rule), every open/read terminates within 20 s; "
+                "for edge/chain/3-cycle (thorough: diamond, 4-chain, "
+                "4-cycle) all 4^n assignments of run identifiers {equal, "
+                "prefix-extended, unrelated, missing} x unmapped/mapped; "
+                "relative and dangling locations; remote definitions via "
+                "the in-memory HTTP host (remote -> file chain must stop, "
+                "unreachable remote => unavailable) and opening through "
+                "RTDC_HTTP with a spy proving that no local path is opened.",
+        "note": "a referrer without run identifier is unconstrained; "
+                "graphs on more than 4 files, S3 and DCOR formats are not "
+                "enumerated (no network); basin definitions get distinct "
+                "names per edge",
     },
 }
